@@ -99,7 +99,6 @@ KNOWN = [
     ("C48", "interface-error", {"fn": "scatter", "iface": "autograd"}, "qp.math.scatter has no autograd implementation"),
     ("C48", "interface-error", {"fn": "sort", "iface": "torch"}, "qp.math.sort(torch_tensor, axis=k) raises TypeError (wrapper drops axis)"),
     ("C48", "gradient-error", {"fn": "norm", "iface": "autograd"}, "qp.math.norm(x, axis=k) cannot be differentiated with autograd"),
-    ("C40", "unexpected-exception", {"evolve_param_base": True}, "bind_new_parameters raises IndexError on qp.evolve with a parametrised base"),
     ("C48", "gradient-error", {"fn": "fidelity.param", "iface": "torch"}, "qp.math.fidelity with a trainable torch state and a numpy second state raises TypeError (second state not converted to torch)"),
     ("C48", "gradient-error", {"fn": "diagonal", "iface": "autograd"}, "qp.math.diagonal inside an autograd trace ignores / rejects the offset argument"),
     ("C16", None, {"sig": "dyadic:mult2k"}, "DyadicMatrix.mult2k(k) does not multiply by 2**k (unused in the repository)"),
